@@ -146,7 +146,7 @@ def shard_validate(module, cfg_text, items, shards=8, workers=2, timeout=1800, t
         with open(path, "w") as fh:
             json.dump(chunks[s], fh)
         try:
-            res = run_tlc(module, cfg_text, workers=workers, timeout=timeout, env={"TRACE_FILE": path}, tag=tag)
+            res = run_tlc(module, cfg_text, workers=workers, timeout=timeout, env={"TRACE_FILE": path}, tag=tag, heap="3g", gcthreads=2)
         finally:
             os.unlink(path)
         if res.error:
